@@ -26,7 +26,11 @@ import (
 const simhookSrc = `// Package simhook is injected by /verif/tools/instr through -overlay; it does not exist in the repository.
 package simhook
 
-import "runtime"
+import (
+	"runtime"
+	"sync"
+	"unsafe"
+)
 
 // Hook is nil outside a simulation.
 var Hook func(site int)
@@ -40,6 +44,66 @@ var BlockedHook func(site int)
 //
 //go:norace
 func Sim() bool { return Hook != nil }
+
+// OnceDo runs a statement of the form "X.Do(f)" (do = func() { X.Do(f) }, p = &X). If X is a sync.Once and a
+// simulation is running, a task that arrives while another (parked) task is inside f does not block in the Once's
+// mutex while it holds the baton: it calls Blocked until the first caller is through. The table is plain memory on
+// purpose (no synchronisation that ThreadSanitizer could take for an edge between tasks); only the baton holder
+// touches it, and a stale entry merely means the real Do is called.
+//
+//go:norace
+func OnceDo(site int, p any, do func()) {
+	var o *sync.Once
+	switch v := p.(type) {
+	case *sync.Once:
+		o = v
+	case **sync.Once:
+		o = *v
+	}
+	if o == nil || Hook == nil || BlockedHook == nil {
+		do()
+		return
+	}
+	key := uintptr(unsafe.Pointer(o))
+	for {
+		i, free := int(key>>4)%len(onceTab), -1
+		found := -1
+		for n := 0; n < 16; n++ {
+			j := (i + n) % len(onceTab)
+			if onceTab[j].key == key {
+				found = j
+				break
+			}
+			if onceTab[j].key == 0 && free < 0 {
+				free = j
+			}
+		}
+		switch {
+		case found >= 0 && onceTab[found].state == 2, found < 0 && free < 0:
+			do() // done before (returns at once), or no room to track it
+			return
+		case found < 0:
+			onceTab[free].key, onceTab[free].state = key, 1
+			func() {
+				defer func() { onceTab[free].state = 2 }()
+				do()
+			}()
+			return
+		default:
+			Blocked(site) // another task is inside f
+		}
+	}
+}
+
+var onceTab [512]struct {
+	key   uintptr
+	state uint8 // 1 = a task is inside Do, 2 = done
+}
+
+// ResetOnce forgets all tracked Once objects (called at the start of every simulation).
+//
+//go:norace
+func ResetOnce() { onceTab = [512]struct { key uintptr; state uint8 }{} }
 
 // Blocked is called in the TryLock loop each time the lock was found taken.
 //
@@ -92,6 +156,28 @@ func lockStmt(s ast.Stmt) (string, ast.Expr) {
 		return "TryRLock", sel.X
 	}
 	return "", nil
+}
+
+// onceStmt recognises the statement form "X.Do(arg)" (one argument, result unused) and returns X. Whether X is a
+// sync.Once is decided at run time by simhook.OnceDo; "&(X)" must compile (else vsim falls back to -locks=false).
+func onceStmt(s ast.Stmt) ast.Expr {
+	es, ok := s.(*ast.ExprStmt)
+	if !ok {
+		return nil
+	}
+	call, ok := es.X.(*ast.CallExpr)
+	if !ok || len(call.Args) != 1 || call.Ellipsis.IsValid() {
+		return nil
+	}
+	sel, ok := call.Fun.(*ast.SelectorExpr)
+	if !ok || sel.Sel.Name != "Do" {
+		return nil
+	}
+	switch sel.X.(type) {
+	case *ast.Ident, *ast.SelectorExpr, *ast.StarExpr, *ast.IndexExpr, *ast.ParenExpr:
+		return sel.X
+	}
+	return nil
 }
 
 func main() {
@@ -161,6 +247,15 @@ func main() {
 				x := string(src[fset.Position(recv.Pos()).Offset:fset.Position(recv.End()).Offset])
 				ins = append(ins, insertion{off: pos.Offset, text: fmt.Sprintf("simhook_.Yield(%d); if simhook_.Sim() { for !(%s).%s() { simhook_.Blocked(%d) } } else { ", siteID, x, try, siteID)})
 				ins = append(ins, insertion{off: fset.Position(s.End()).Offset, text: " }"})
+				sites = append(sites, fmt.Sprintf("%d\t%s:%d", siteID, rel, pos.Line))
+				siteID++
+				nLocks++
+				return
+			}
+			if recv := onceStmt(s); *locks && recv != nil {
+				x := string(src[fset.Position(recv.Pos()).Offset:fset.Position(recv.End()).Offset])
+				ins = append(ins, insertion{off: pos.Offset, text: fmt.Sprintf("simhook_.Yield(%d); simhook_.OnceDo(%d, &(%s), func() { ", siteID, siteID, x)})
+				ins = append(ins, insertion{off: fset.Position(s.End()).Offset, text: " })"})
 				sites = append(sites, fmt.Sprintf("%d\t%s:%d", siteID, rel, pos.Line))
 				siteID++
 				nLocks++
